@@ -687,3 +687,53 @@ Section Line.
     - split; [reflexivity|]. apply firstn_all2. rewrite time_text_length by exact Hdt. lia.
   Qed.
 End Line.
+
+(* ====================================================================== *)
+(* 4. formatSI / formatIEC: what is established about the ladders           *)
+(* ====================================================================== *)
+
+Lemma formatSI_small s : 0 <= s < 1000 -> formatSI s = convert s /\ (length (formatSI s) <= 3)%nat.
+Proof.
+  intros H. assert (E : formatSI s = convert s).
+  { unfold formatSI, si_ladder. cbn [select]. destruct (Z.ltb_spec (s * 1) 1000); [reflexivity|lia]. }
+  split; [exact E|]. rewrite E.
+  pose proof (convert_length s 3 ltac:(lia) ltac:(change (10 ^ Z.of_nat 3) with 1000; lia)) as L.
+  destruct (Z.ltb_spec s 0); lia.
+Qed.
+
+Lemma to_double_small s : 0 <= s < 2 ^ 53 -> to_double s = s.
+Proof. intros H. unfold to_double. destruct (Z.ltb_spec s (2 ^ 53)); [reflexivity|lia]. Qed.
+
+Lemma formatIEC_small s : 0 <= s < 1024 -> formatIEC s = convert s /\ (length (formatIEC s) <= 4)%nat.
+Proof.
+  intros H. assert (E : formatIEC s = convert s).
+  { unfold formatIEC. rewrite to_double_small by lia. unfold iec_ladder. cbn [select].
+    destruct (Z.ltb_spec (s * 1) 1024); [reflexivity|lia]. }
+  split; [exact E|]. rewrite E.
+  pose proof (convert_length s 4 ltac:(lia) ltac:(change (10 ^ Z.of_nat 4) with 10000; lia)) as L.
+  destruct (Z.ltb_spec s 0); lia.
+Qed.
+
+(* first integer n with n >= num/den *)
+Definition rung_start (b : Z * Z) : Z := let '(num, den) := b in - ((- num) / den).
+Definition rung_starts (l : list (option (Z * Z) * rung_fmt)) : list Z :=
+  flat_map (fun r => match fst r with Some b => [rung_start b] | None => [] end) l.
+
+(* both ends of every rung, evaluated in the exact model: last n of the rung below and first n
+   of the rung above each regenerated bound; the one failing end is F-9's *)
+Definition si_end_ok (b : Z) : bool :=
+  (length (formatSI b) <=? 5)%nat &&
+  ((length (formatSI (b - 1)) <=? 5)%nat || (b =? 99950000000000000)).
+Definition iec_end_ok (b : Z) : bool :=
+  (length (formatIEC b) <=? 6)%nat && (length (formatIEC (b - 1)) <=? 6)%nat.
+
+Lemma si_rung_ends : forallb si_end_ok (rung_starts si_ladder) = true /\
+                     (length (formatSI (2 ^ 63 - 1)) <=? 5)%nat = true /\ (length (formatSI 0) <=? 5)%nat = true.
+Proof. vm_compute. repeat split. Qed.
+
+Lemma iec_rung_ends : forallb iec_end_ok (rung_starts iec_ladder) = true /\
+                      (length (formatIEC (2 ^ 63 - 1)) <=? 6)%nat = true /\ (length (formatIEC 0) <=? 6)%nat = true.
+Proof. vm_compute. repeat split. Qed.
+
+Lemma si_width_witness : 0 <= 99949999999999992 < 2 ^ 63 /\ ~ (length (formatSI 99949999999999992) <= 5)%nat.
+Proof. split; [lia|]. vm_compute. intros H. repeat (apply le_S_n in H). inversion H. Qed.
